@@ -50,15 +50,16 @@ type PoolCounters struct {
 	Pool                       string
 	Gen                        int
 	Capacity, InUse, Available int64
+	Active                     int64 // live connections (in use + idle)
 }
 
 // RealCounters returns the counters of every real pool (all generations).
 func (w *World) RealCounters() []PoolCounters {
 	var out []PoolCounters
 	for _, rp := range w.realPools {
-		c, u, a, ok := backend.VerifRealPoolCounters(rp.pool)
+		c, u, a, act, ok := backend.VerifRealPoolCounters(rp.pool)
 		if ok {
-			out = append(out, PoolCounters{Pool: rp.key, Gen: rp.gen, Capacity: c, InUse: u, Available: a})
+			out = append(out, PoolCounters{Pool: rp.key, Gen: rp.gen, Capacity: c, InUse: u, Available: a, Active: act})
 		}
 	}
 	return out
